@@ -198,7 +198,8 @@ fn check(cx: &Ctx, case: &Case) -> Outcome {
         .collect::<Result<Vec<_>, _>>()
     {
         Ok(b) => b,
-        Err(e) => return Outcome::fail("harness: cannot build policy", e),
+        // a harness problem is never a violation: discard, and main() turns it into "inconclusive"
+        Err(e) => return Outcome::discard().class(format!("harness-error:{}", e.chars().take(60).collect::<String>())),
     };
     // ---- every permutation through the real fold
     let perms = permutations(n);
@@ -546,5 +547,8 @@ fn main() {
     cx.require_class("ca-blanket-meets-devices", 50);
     cx.require_class("single-factor-minimum-raised", 50);
     cx.require_class("policies:5", 50);
+    if cx.class_count("discarded") > 0 {
+        cx.inconclusive("some generated policies could not be built (harness problem)");
+    }
     cx.finish();
 }
